@@ -88,7 +88,7 @@ NOT_APPLICABLE = {}
 
 
 def main():
-    hooks_commits = []
+    hooks_commits = ["603233c"]
     checks = []
     for pid in sorted(CHECKS):
         c = CHECKS[pid]
@@ -113,8 +113,10 @@ def main():
         "setup_cmd": "bin/setup.sh",
         "hooks": {
             "guard": "XCM_VERIF",
-            "enable": "checks compile /repo's sources with -DXCM_VERIF into /verif/build; the conformance seams are link-time "
-                      "(-Wl,--wrap of libc calls and of xcm_tp_socket_send/receive/finish), so no source hook is needed for them",
+            "enable": "checks compile /repo's sources with -DXCM_VERIF into /verif/build (never into /repo's own build); most conformance "
+                      "seams are link-time (-Wl,--wrap of libc calls and of xcm_tp_socket_send/receive/finish); libxcm/core/verif.h adds "
+                      "callback-based observation points (XCM_VERIF_EV / XCM_VERIF_YIELD) inside the critical sections of active_fd.c, "
+                      "ctx_store.c and get_next_sock_id(), which expand to nothing without the guard",
             "baseline_off_cmd": "cd /repo && make -k -j8 check VERBOSE=1",
             "source_commits": hooks_commits,
             "add_only": True,
